@@ -519,3 +519,61 @@ def names_from(fn_node, is_source) -> set:
                     out |= new
                     changed = True
     return out
+
+
+# ---------------------------------------------------------------------------------------------- provenance on the object
+def self_attr(x, sn):
+    """Name of the attribute when `x` reads `self.<name>` / getattr(self, "<name>"[, default]), else None."""
+    if isinstance(x, ast.Attribute) and isinstance(x.value, ast.Name) and x.value.id == sn and isinstance(x.ctx, ast.Load):
+        return x.attr
+    if isinstance(x, ast.Call) and isinstance(x.func, ast.Name) and x.func.id == "getattr" and len(x.args) >= 2 \
+            and isinstance(x.args[0], ast.Name) and x.args[0].id == sn and isinstance(x.args[1], ast.Constant):
+        return str(x.args[1].value)
+    return None
+
+
+def self_stores(fn_node, sn) -> dict:
+    """attribute -> [value expressions] for `self.<attribute> = value` / setattr(self, "<attribute>", value) in the function."""
+    out: dict = {}
+    for n in ast.walk(fn_node):
+        if isinstance(n, (ast.Assign, ast.AnnAssign, ast.AugAssign)) and getattr(n, "value", None) is not None:
+            for t in (n.targets if isinstance(n, ast.Assign) else [n.target]):
+                if isinstance(t, ast.Attribute) and isinstance(t.value, ast.Name) and t.value.id == sn:
+                    out.setdefault(t.attr, []).append(n.value)
+        elif isinstance(n, ast.Call) and isinstance(n.func, ast.Name) and n.func.id == "setattr" and len(n.args) == 3 \
+                and isinstance(n.args[0], ast.Name) and n.args[0].id == sn and isinstance(n.args[1], ast.Constant):
+            out.setdefault(str(n.args[1].value), []).append(n.args[2])
+    return out
+
+
+def provenance(fn_node, roots, sn) -> set:
+    """Attributes of the object whose values flow into the expressions `roots`: followed backwards through local bindings and
+    through attributes the function stores itself (a cache field filled a few lines above).  Conditions under which a value
+    is chosen do not count, only what the value is computed from."""
+    binds: dict = {}
+    for names, src in _bindings(fn_node):
+        for nm in names:
+            binds.setdefault(nm, []).append(src)
+    stores = self_stores(fn_node, sn)
+    out, seen, work = set(), set(), list(roots)
+    while work:
+        e = work.pop()
+        skip = set()
+        for x in ast.walk(e):
+            if id(x) in skip:
+                continue
+            if isinstance(x, ast.IfExp):
+                skip |= {id(y) for y in ast.walk(x.test)}  # which arm is taken is a condition, not a value
+                continue
+            a = self_attr(x, sn)
+            if a is not None:
+                if a in stores:
+                    if ("." + a) not in seen:
+                        seen.add("." + a)
+                        work += stores[a]
+                else:
+                    out.add(a)
+            elif isinstance(x, ast.Name) and x.id in binds and x.id not in seen:
+                seen.add(x.id)
+                work += binds[x.id]
+    return out
